@@ -32,6 +32,7 @@ type c19Params struct {
 	N4Addr   string `json:"n4"`
 	Seed     int64  `json:"seed"`
 	N        int    `json:"n"`
+	Datapath string `json:"datapath"` // bess (default) | up4
 }
 
 func sliceEntry(e *fakebess.QerEntry) map[string]interface{} {
@@ -50,6 +51,9 @@ func c19Worker(args []string) error {
 
 	rng := rand.New(rand.NewSource(p.Seed))
 	cfg := agent.Cfg{N4Addr: p.N4Addr, Datapath: "bess", LogLevel: "warn", ReadTimeout: 120, RespTimeout: "2s", MaxReqRetries: 5}
+	if p.Datapath == "up4" {
+		cfg = up4Cfg(rng, p.N4Addr)
+	}
 
 	w, err := e2e.NewWorld(filepath.Join(p.Dir, "w"), p.AgentBin, filepath.Join(p.Dir, "unused.ndjson"), cfg, 1)
 	if err != nil {
@@ -102,6 +106,12 @@ func c19Worker(args []string) error {
 		}
 
 		cmds0 := w.Bess.Snapshot().Cmds
+		upd0 := 0
+
+		if w.P4 != nil {
+			upd0 = w.P4.Snapshot().Updates
+		}
+
 		log0 := len(w.Agent.Stderr())
 		status := 0
 
@@ -130,6 +140,55 @@ func c19Worker(args []string) error {
 			_, _ = io.ReadAll(resp.Body)
 			resp.Body.Close()
 			status = resp.StatusCode
+		}
+
+		if w.P4 != nil {
+			w.P4.WaitIdle(3*time.Millisecond, 2*time.Second)
+			time.Sleep(2 * time.Millisecond)
+
+			// UP4: one cell of slice_tc_meter, index (slice << 2) + default TC
+			var sliceID uint32
+
+			for _, m := range w.P4.Info.Meters {
+				if m.Preamble.Name == "PreQosPipe.slice_tc_meter" {
+					sliceID = m.Preamble.Id
+				}
+			}
+
+			ncmd := 0
+
+			for _, u := range w.P4.UpdatesSince(upd0) {
+				if me := u.Raw.GetEntity().GetMeterEntry(); me != nil && me.MeterId == sliceID {
+					ncmd++
+				}
+			}
+
+			st := w.P4.Snapshot()
+			cells := []map[string]interface{}{}
+
+			for idx, c := range st.Meters[sliceID] {
+				nn := func(v int64) uint64 {
+					if v < 0 {
+						return 0
+					}
+
+					return uint64(v)
+				}
+				cells = append(cells, map[string]interface{}{"idx": int(idx), "cir": pfcpx.Big(nn(c.Cir)), "cbs": pfcpx.Big(nn(c.Cburst)), "pir": pfcpx.Big(nn(c.Pir)), "pbs": pfcpx.Big(nn(c.Pburst)),
+					"neg": c.Cir < 0 || c.Cburst < 0 || c.Pir < 0 || c.Pburst < 0})
+			}
+
+			extra := strings.Count(w.Agent.Stderr()[log0:], "superfluous response.WriteHeader")
+			line := map[string]interface{}{"op": "http", "dp": "up4", "method": method, "body": body, "unit": unit, "ul": pfcpx.Big(ul), "dl": pfcpx.Big(dl),
+				"ulBurst": pfcpx.Big(ub), "dlBurst": pfcpx.Big(db), "status": status, "extraHeaders": extra, "cmds": ncmd, "cells": cells,
+				"cellIdx": w.Cfg.P4SliceID<<2 + *w.Cfg.P4DefaultTC}
+			lines++
+
+			if method == "PUT" || method == "POST" {
+				nontrivial++
+			}
+
+			return enc.Encode(line)
 		}
 
 		w.Bess.WaitIdle(3*time.Millisecond, 2*time.Second)
@@ -217,16 +276,22 @@ func C19(c *core.Ctx) {
 	c.SetCov("rule", "real HTTP requests to the running agent: every method x body class (valid, empty, not JSON, wrong types, truncated body with half-closed connection), every unit x boundary "+
 		"rates around the 63-bit limit, seeded random 64-bit rates and bursts; status, superfluous header writes (from the server's log) and the sliceMeter commands / entries at the harness BESS server "+
 		"are judged by TraceC19 with BigNat arithmetic; distinct_nontrivial = PUT/POST requests")
-	c.Assume("BESS datapath (slice meter); the UP4 slice/TC meter cell is covered with the UP4 checks; a second WriteHeader is observed through net/http's 'superfluous response.WriteHeader' log line")
+	c.Assume("both datapaths: BESS slice meter entries, UP4 slice_tc_meter cell at the harness' P4Runtime switch; a second WriteHeader is observed through net/http's 'superfluous response.WriteHeader' log line")
 
 	n := 150
 	if c.Thorough() {
 		n = 4000
 	}
 
-	dir, _ := shardDir(c, 0)
+	for i, dp := range []string{"bess", "up4"} {
+		c19One(c, i, dp, n)
+	}
+}
+
+func c19One(c *core.Ctx, shard int, dp string, n int) {
+	dir, _ := shardDir(c, shard)
 	trace := filepath.Join(dir, "c19.ndjson")
-	pb, _ := json.Marshal(c19Params{Dir: dir, Trace: trace, AgentBin: filepath.Join(c.BinDir, "verif-agent"), N4Addr: n4For(0), Seed: c.Seed, N: n})
+	pb, _ := json.Marshal(c19Params{Dir: dir, Trace: trace, AgentBin: filepath.Join(c.BinDir, "verif-agent"), N4Addr: n4For(shard), Seed: c.Seed + int64(shard)*7919, N: n, Datapath: dp})
 	wr := c.RunWorker(20*time.Minute, "c19", string(pb))
 
 	if wr.ExitCode != 0 || wr.TimedOut {
@@ -267,7 +332,7 @@ func C19(c *core.Ctx) {
 			what = "line not explained (agent died?)"
 		}
 
-		d := c.SaveReplay("c19", map[string]string{"tlc.out": tr.OutputPath, "trace.ndjson": trace}, map[string][]byte{"failing_line.ndjson": []byte(line + "\n")})
+		d := c.SaveReplay("c19-"+dp, map[string]string{"tlc.out": tr.OutputPath, "trace.ndjson": trace}, map[string][]byte{"failing_line.ndjson": []byte(line + "\n")})
 		c.Violate(fmt.Sprintf("%s at trace line %d: %s", what, lineNo, trunc(line, 500)), d)
 	case !tr.OK():
 		c.Inconclusive("TLC validation did not complete (err=%q)", tr.ErrorText)
